@@ -43,6 +43,8 @@ class GraphV:
 
     def add_nodes_from(self, ns, **attr):
         for n in ns:
+            if isinstance(n, (list, dict, set)):
+                raise TypeError("unhashable node")
             if isinstance(n, tuple) and len(n) == 2 and isinstance(n[1], dict):
                 self.add_node(n[0], **{**attr, **n[1]})
             else:
@@ -62,6 +64,8 @@ class GraphV:
 
     def add_edges_from(self, es, **attr):
         for e in es:
+            if not isinstance(e, (tuple, list)) or len(e) not in (2, 3):
+                raise ValueError("edge tuple must be a 2-tuple or 3-tuple")
             if len(e) == 3:
                 u, v, d = e
                 self.add_edge(u, v, **{**attr, **d})
@@ -230,7 +234,12 @@ class GWorld(World):
 
                 def call(*a, **kw):
                     a = [self._listify(it, x, node) for x in a]
-                    fn(*a, **kw)
+                    try:
+                        fn(*a, **kw)
+                    except (TypeError, ValueError) as ex:
+                        for d in o.node.values():
+                            self.owned.add(id(d))
+                        raise Raised(type(ex).__name__, node, it.stack[-1].fi if it.stack else None, str(ex))
                     # the attribute dicts created by the model belong to the graph
                     for d in o.node.values():
                         self.owned.add(id(d))
